@@ -693,6 +693,7 @@ pub fn regime_tags(spec: &DistSpec) -> Vec<String> {
                 t.push("hyper:N>=2^62".into());
             }
         }
+        Family::Poisson if p.len() == 1 && p[0] >= 1.2e19 => t.push("poisson:lambda>=1.2e19".into()),
         Family::StudentT if p.len() == 1 && p[0] == 1.0 => t.push("dof=1".into()),
         Family::FisherF if p.len() == 2 && (p[0] == 1.0 || p[1] == 1.0) => t.push("dof=1".into()),
         Family::StudentT if p.len() == 1 && p[0] <= 0.11 => t.push("dof<=0.11".into()),
